@@ -102,6 +102,8 @@ fn contains_return(e: &E) -> bool {
         E::Bin(_, a, b, _, _) | E::And(a, b) | E::Or(a, b) | E::UnwrapOr(a, b) | E::IsSomeAnd(a, _, b) | E::Let(_, a, b) => contains_return(a) || contains_return(b),
         E::If(c, t, f) => contains_return(c) || contains_return(t) || contains_return(f),
         E::Match(s, _, arms) => contains_return(s) || arms.iter().any(|a| a.guard.as_ref().map_or(false, contains_return) || contains_return(&a.body)),
+        // a `return` in the inlined body returns from the callee, not from the enclosing fn
+        E::Inline(binds, _) => binds.iter().any(|(_, a)| contains_return(a)),
     }
 }
 
@@ -432,6 +434,24 @@ impl Lower {
                 self.lower(i, K::Then(pat, Rc::new(body)))
             }
             E::Return(x) => self.lower(x, K::Yield),
+            E::Inline(binds, body) => {
+                // Without an early `return` in the callee the body simply continues with `k`
+                // (flattened).  With one, the callee is lowered as a computation of its own —
+                // `Yield` inside it is "return from the callee" — and its result is bound to `k`.
+                let direct = matches!(k, K::Yield) || !contains_return(body);
+                let mut comp = if direct { self.lower(body, k.clone()) } else { self.lower(body, K::Yield) };
+                for (name, arg) in binds.iter().rev() {
+                    comp = self.lower(arg, K::Then(name.clone(), Rc::new(comp)));
+                }
+                if direct {
+                    comp
+                } else {
+                    match k {
+                        K::Then(pat, rest) => Comp::Bind(Box::new(comp), pat, rest),
+                        K::Yield => comp,
+                    }
+                }
+            }
             E::Panic => Comp::Panic,
             E::ErrE(t) => Comp::Err(t.clone()),
             E::OkE(x) => {
